@@ -1,4 +1,6 @@
 import CifModel.Lemmas.Value
+import CifModel.Lemmas.HeapOps
+import CifModel.Gen.ValueCols
 /-
   Property C19 — value objects are independent deep values; lists and tables keep their contracts.
 
@@ -202,6 +204,174 @@ theorem C19_reinit_releases (v w : V) (kind : Nat) (t : Str) (s : Step) (p : Lis
 theorem C19_cex_clone_alias :
     cloneOnto (.lst [.lst [.chr true (a!"x")]]) [.idx 0, .idx 0] [.idx 0] = none
     ∧ cloneOnto (.lst [.chr true (a!"x")]) [] [] = some .unk := ⟨rfl, rfl⟩
+
+
+/-! ## Heap level (Model/Heap): ownership, disjointness of clones, exactly-once release
+
+  `Heap.Rep h hv v F`: in heap `h` the value fields `hv` represent the pure value `v` and own exactly the blocks `F`.
+  An operation returning `some` has read, written and freed live blocks only (a dead block makes it return `none`). -/
+
+section HeapLevel
+open Model.Heap
+
+/-- **Clone is disjoint** (any depth): a clone of a represented value is a representation of the same value on blocks
+    that did not exist before — so it shares no storage with the original —; the original is still represented;
+    releasing either leaves the other represented; and clone followed by release of the clone restores the heap cell
+    for cell (every block the clone allocated is freed exactly once, nothing else is touched). -/
+theorem C19_clone_disjoint (h : Heap) (hw : h.WF) (hv : HVal) (v : V) (F : List Nat) (hr : Rep h hv v F)
+    (hF : ∀ a, a ∈ F → a < h.next) (hv' : HVal) (h1 : Heap) (hb : buildVal h v = (hv', h1)) :
+    ∃ F', Rep h1 hv' v F' ∧ Rep h1 hv v F ∧ disjoint F F' ∧ h1.WF
+      ∧ (∃ h2, cleanVal (need v) h1 hv' = some h2 ∧ Rep h2 hv v F ∧ ∀ a, h2.cell a = h.cell a)
+      ∧ (∃ h2, cleanVal (need v) h1 hv = some h2 ∧ Rep h2 hv' v F') := by
+  obtain ⟨e1, F', hrep', hrange, hcover⟩ := buildVal_spec v h hw hv' h1 hb
+  have horig : Rep h1 hv v F := Rep_congr h h1 v hv F (fun a ha => e1.frame a (hF a ha)) hr
+  have hdis : disjoint F F' := fun a ha hb' => by have := hF a ha; have := (hrange a hb').1; omega
+  obtain ⟨h2, hc2, c2⟩ := cleanVal_spec v h1 hv' F' (need v) hrep' (Nat.le_refl _)
+  obtain ⟨h3, hc3, c3⟩ := cleanVal_spec v h1 hv F (need v) horig (Nat.le_refl _)
+  refine ⟨F', hrep', horig, hdis, e1.wf, ⟨h2, hc2, ?_, ?_⟩, ⟨h3, hc3, ?_⟩⟩
+  · apply Rep_congr h1 h2 v hv F _ horig
+    intro a ha; rw [c2.2 a, if_neg (hdis a ha)]
+  · intro a
+    rw [c2.2 a]
+    by_cases ha : a ∈ F'
+    · rw [if_pos ha, hw a (hrange a ha).1]
+    · rw [if_neg ha]
+      by_cases hlt : a < h.next
+      · exact e1.frame a hlt
+      · by_cases hge : h1.next ≤ a
+        · rw [e1.wf a hge, hw a (by omega)]
+        · exact absurd (hcover a (by omega) (by omega)) ha
+  · apply Rep_congr h1 h3 v hv' F' _ hrep'
+    intro a ha; rw [c3.2 a, if_neg (fun hm => hdis a hm ha)]
+
+/-- **Containers copy what is put into them**: `cif_value_insert_element_at` stores a copy on fresh blocks, so a value
+    `src` represented elsewhere in the heap (in particular the object passed in) is still represented afterwards and owns
+    nothing in common with the list; the list is represented with the element spliced in; every block outside the list
+    is untouched; nothing leaks. -/
+theorem C19_put_copies (h : Heap) (hw : h.WF) (hv : HVal) (vs : List V) (F : List Nat) (i : Nat) (x : Option V)
+    (hr : Rep h hv (.lst vs) F) (hF : ∀ a, a ∈ F → a < h.next) (hi : i ≤ vs.length)
+    (hs : HVal) (src : V) (Fs : List Nat) (hsrc : Rep h hs src Fs) (hFs : ∀ a, a ∈ Fs → a < h.next) (hds : disjoint Fs F) :
+    ∃ hv' h' F', listInsertH h hv i x = some (hv', h') ∧ Rep h' hv' (.lst (vs.insertIdx i (x.getD .unk))) F'
+      ∧ Rep h' hs src Fs ∧ disjoint Fs F' ∧ h'.WF
+      ∧ (∀ a, a ∈ F → a ∉ F' → h'.cell a = none) ∧ (∀ a, h.next ≤ a → a < h'.next → a ∈ F') := by
+  obtain ⟨hv', h', F', hop, hrep, hwf, _, hframe, hdrop, hown, hsub⟩ := listInsertH_spec h hv vs F i x hw hr hF hi
+  refine ⟨hv', h', F', hop, hrep, ?_, ?_, hwf, hdrop, hown⟩
+  · exact Rep_congr h h' src hs Fs (fun a ha => hframe a (hFs a ha) (hds a ha)) hsrc
+  · intro a ha hb
+    rcases hsub a hb with hh | hh
+    · exact hds a ha hh
+    · have := hFs a ha; omega
+
+/-- the capacity sequence of a list grown by appending: 0, 4, 8, 12, 18, 27, 40 (value.c: `cap + (cap < 10 ? 4 : cap / 2)`,
+    the three constants re-extracted from the source on every run) -/
+theorem C19_capacity_growth :
+    growCap 0 = 4 ∧ growCap 4 = 8 ∧ growCap 8 = 12 ∧ growCap 12 = 18 ∧ growCap 18 = 27 ∧ growCap 27 = 40
+    ∧ (∀ c, c < growCap c)
+    ∧ Gen.ValueCols.growSmallBelow = 10 ∧ Gen.ValueCols.growSmallBy = 4 ∧ Gen.ValueCols.growDivisor = 2 := by
+  refine ⟨rfl, rfl, rfl, rfl, rfl, rfl, ?_, by decide, by decide, by decide⟩
+  intro c; unfold growCap; split <;> omega
+
+/-- **Remove transfers ownership**: after `cif_value_remove_element_at(list, i, &x)` the list (with the gap closed) and the
+    removed element are both represented, on disjoint blocks that together are exactly the blocks the list owned
+    before; nothing was allocated or freed.  When the caller then frees the element and later the list, every block of
+    the original list has been freed exactly once.  The same for a map entry handed out by
+    `cif_value_remove_item_by_key` / `cif_packet_remove_item` (the value object *is* the entry block). -/
+theorem C19_remove_transfers (h : Heap) (hv : HVal) (vs : List V) (F : List Nat) (i : Nat)
+    (hr : Rep h hv (.lst vs) F) (hi : i < vs.length) :
+    (∃ hv' x h' v hvx Fx F', listRemoveH 0 h hv i true = some (hv', some x, h') ∧ vs[i]? = some v
+        ∧ Rep h' hv' (.lst (vs.eraseIdx i)) F' ∧ h'.cell x = some (.val hvx) ∧ Rep h' hvx v Fx ∧ x ∉ Fx
+        ∧ disjoint (Fx ++ [x]) F' ∧ (∀ a, a ∈ F ↔ (a ∈ F' ∨ a ∈ Fx ∨ a = x)) ∧ h'.next = h.next
+        ∧ (∀ a, a ∉ F → h'.cell a = h.cell a))
+    ∧ (∃ hv' x h1 h2 h3 v, listRemoveH 0 h hv i true = some (hv', some x, h1) ∧ vs[i]? = some v
+        ∧ freeVal (need v) h1 x = some h2 ∧ cleanVal (need (.lst (vs.eraseIdx i))) h2 hv' = some h3
+        ∧ h3.next = h.next ∧ ∀ a, h3.cell a = if a ∈ F then none else h.cell a) :=
+  ⟨listRemoveH_toCaller_spec 0 h hv vs F i hr hi, listRemove_then_free_all h hv vs F i hr hi⟩
+
+theorem C19_remove_transfers_entry (h : Heap) (e : Nat) (k ko : Str) (v : V) (F : List Nat) (hr : RepEntry h e k ko v F) :
+    ∃ h1 h2, entryDetach h e = some h1 ∧ freeDetached (need v) h1 e = some h2 ∧ h2.next = h.next
+      ∧ ∀ a, h2.cell a = if a ∈ F then none else h.cell a :=
+  let ⟨h1, h2, a, b, c⟩ := entryDetach_free_spec h e k ko v F hr; ⟨h1, h2, a, b, c.1, c.2⟩
+
+/-- **(Re)initialisers release the previous content** (heap level): `cif_value_clean` — the first step of every
+    (re)initialiser — frees exactly the blocks the value owns, each once, and nothing else -/
+theorem C19_reinit_releases_heap (h : Heap) (hv : HVal) (v : V) (F : List Nat) (hr : Rep h hv v F) :
+    ∃ h', cleanVal (need v) h hv = some h' ∧ h'.next = h.next ∧ ∀ a, h'.cell a = if a ∈ F then none else h.cell a :=
+  let ⟨h', a, b⟩ := cleanVal_spec v h hv F (need v) hr (Nat.le_refl _); ⟨h', a, b.1, b.2⟩
+
+/-- **The map-entry protocol is heap-safe** (C16, ownership of `key` / `key_orig`): from any well-formed heap
+    (1) `cif_packet_create` builds, per name, an entry represented on fresh blocks — `key_orig` aliasing `key` when the
+        name is already normalised;
+    (2) recording a new spelling keeps the entry represented and its hash key live, releases only a *separate* old
+        original key, touches nothing outside the entry and owns what it allocates;
+    (3) a whole table (`cif_value_clean`, `cif_map_clean`) or a detached entry is released block by block, each block
+        exactly once, shared key blocks included;
+    and the history that broke the pinned tree (F10) — packet from an already-normalised name, set under another spelling,
+    lookup, removal, release — runs without touching a dead block and leaves the heap exactly as it was. -/
+theorem C16_map_heap_safe (h : Heap) (hw : h.WF) (nk key : Str) :
+    (∀ name e h1, packetEntryCreate h nk name = (e, h1) →
+        h1.WF ∧ (∀ a, a < h.next → h1.cell a = h.cell a) ∧ ∃ F, RepEntry h1 e nk name .unk F ∧ ∀ a, a ∈ F ↔ (h.next ≤ a ∧ a < h1.next))
+    ∧ (∀ e k ko v F, RepEntry h e k ko v F → (∀ a, a ∈ F → a < h.next) →
+        ∃ h' F', entryRespell false h e key = some h' ∧ RepEntry h' e k key v F' ∧ h'.WF ∧ entryKey h' e = some k
+          ∧ (∀ a, a < h.next → a ∉ F → h'.cell a = h.cell a) ∧ (∀ a, a ∈ F → a ∉ F' → h'.cell a = none)
+          ∧ (∀ a, h.next ≤ a → a < h'.next → a ∈ F'))
+    ∧ (∀ ents es F, RepEntries h ents es F →
+        ∃ h', freeEntries (needEntries es + 1) h ents = some h' ∧ ∀ a, h'.cell a = if a ∈ F then none else h.cell a)
+    ∧ (∃ e h1 h2 h3 h4, packetEntryCreate h nk nk = (e, h1) ∧ entryRespell false h1 e key = some h2
+        ∧ entryKey h2 e = some nk ∧ entryDetach h2 e = some h3 ∧ freeDetached 1 h3 e = some h4
+        ∧ ∀ a, h4.cell a = h.cell a) := by
+  refine ⟨?_, ?_, ?_, ?_⟩
+  · intro name e h1 hb
+    obtain ⟨a, _, c, d⟩ := packetEntryCreate_spec h hw nk name e h1 hb
+    exact ⟨a, c, d⟩
+  · intro e k ko v F hr hF
+    obtain ⟨h', F', a, b, c, d, e', f, g, _, _⟩ := entryRespell_spec h hw e k ko v F key hr hF
+    exact ⟨h', F', a, b, c, d, e', f, g⟩
+  · intro ents es F hr
+    obtain ⟨h', a, b⟩ := freeEntries_spec es h ents F (needEntries es + 1) hr (Nat.le_refl _)
+    exact ⟨h', a, b.2⟩
+  · generalize hb : packetEntryCreate h nk nk = r
+    obtain ⟨e, h1⟩ := r
+    obtain ⟨hw1, hle1, hfr1, F, hrep1, hF1⟩ := packetEntryCreate_spec h hw nk nk e h1 hb
+    obtain ⟨h2, F', hop2, hrep2, hw2, hkey2, hfr2, hdrop2, hown2, hlt2, hsub2⟩ :=
+      entryRespell_spec h1 hw1 e nk nk .unk F key hrep1 (fun a ha => ((hF1 a).mp ha).2)
+    obtain ⟨h3, h4, hd, hf, c4⟩ := entryDetach_free_spec h2 e nk key .unk F' hrep2
+    refine ⟨e, h1, h2, h3, h4, rfl, hop2, hkey2, hd, by simpa [need] using hf, ?_⟩
+    intro a
+    rw [c4.2 a]
+    by_cases ha : a ∈ F'
+    · rw [if_pos ha]
+      rcases hsub2 a ha with hh | hh
+      · rw [hw a ((hF1 a).mp hh).1]
+      · rw [hw a (by omega)]
+    · rw [if_neg ha]
+      by_cases hlt : a < h.next
+      · have hnF : a ∉ F := fun hm => by have := ((hF1 a).mp hm).1; omega
+        rw [hfr2 a (by omega) hnF, hfr1 a hlt]
+      · by_cases hlt1 : a < h1.next
+        · have haF : a ∈ F := (hF1 a).mpr ⟨by omega, hlt1⟩
+          rw [hdrop2 a haF ha, hw a (by omega)]
+        · by_cases hlt2 : a < h2.next
+          · exact absurd (hown2 a (by omega) hlt2) ha
+          · rw [hw2 a (by omega), hw a (by omega)]
+
+/-- F10 (repaired by 50deb6e): on the pinned tree recording a new spelling released the old original key even when
+    it *was* the hash key — after `cif_packet_create({"_a"})` and `cif_packet_set_item("_A", …)` the next lookup reads a
+    freed block (`none`); the repaired code reads the key. -/
+theorem C16_cex_F10_pinned :
+    (match packetEntryCreate Heap.empty (a!"_a") (a!"_a") with
+     | (e, h1) => (entryRespell true h1 e (a!"_A")).bind (fun h2 => entryKey h2 e)) = none
+    ∧ (match packetEntryCreate Heap.empty (a!"_a") (a!"_a") with
+       | (e, h1) => (entryRespell false h1 e (a!"_A")).bind (fun h2 => entryKey h2 e)) = some (a!"_a") := by
+  constructor <;> rfl
+
+end HeapLevel
+
+-- non-vacuity of the heap-level hypotheses: a nested value built on the empty heap is represented
+example : Model.Heap.Heap.empty.WF := fun _ _ => rfl
+example : ∃ F, Model.Heap.Rep (Model.Heap.buildVal Model.Heap.Heap.empty (.lst [.chr true (a!"x"), .tbl [((a!"k"), (a!"K"), .na)]])).2
+    (Model.Heap.buildVal Model.Heap.Heap.empty (.lst [.chr true (a!"x"), .tbl [((a!"k"), (a!"K"), .na)]])).1
+    (.lst [.chr true (a!"x"), .tbl [((a!"k"), (a!"K"), .na)]]) F :=
+  let ⟨_, F, h, _⟩ := Model.Heap.buildVal_spec _ Model.Heap.Heap.empty (fun _ _ => rfl) _ _ rfl; ⟨F, h⟩
 
 /-! ### non-vacuity -/
 example : nodupKeys [((a!"k"), (a!"K"), .unk), ((a!"l"), (a!"l"), .na)] = true := by decide
